@@ -90,6 +90,11 @@ def generate(seed, batch):
     scen['full_vector'] = rng.random() < 0.25
     scen['inplace_fd'] = rng.random() < 0.5
     scen['redef_seed'] = rng.getrandbits(32)
+    # transient failure inside one evaluation: the j-th call of a numerical-integration kernel raises (allocation failure of
+    # the per-thread buffers, optionally only when more than one thread is requested)
+    scen['kernel_fault'] = {'target': rng.choice(['calc_kG', 'calc_k0L', 'calc_kLL', 'calc_fint_0L_L0_LL']),
+                            'call': rng.choice([1, 1, 2]), 'kind': rng.choice(['MemoryError', 'MemoryError', 'RuntimeError', 'ValueError']),
+                            'only_threads_gt1': rng.random() < 0.5, 'op': rng.choice(['kT', 'kT', 'fint'])} if rng.random() < 0.25 else None
     return scen
 
 
@@ -117,6 +122,10 @@ def shrink_candidates(scen):
     if scen.get('full_vector'):
         c = copy.deepcopy(scen)
         c['full_vector'] = False
+        yield c
+    if scen.get('kernel_fault'):
+        c = copy.deepcopy(scen)
+        c['kernel_fault'] = None
         yield c
     if scen.get('inplace_fd'):
         c = copy.deepcopy(scen)
@@ -431,6 +440,75 @@ def execute(scen):
                 raise v
             bump(res['probes'], 'J8_free_full_vector_checked')
             res['steps'] += 5
+        # ---- JF: a kernel call fails once in the middle of an evaluation at another state.  Whatever that evaluation does
+        #      (raise, or recover and return), (a) a returned tangent is still the symmetric fault-free tangent of that state,
+        #      and (b) the object is not left in a state in which later evaluations return something else than before
+        kf = scen.get('kernel_fault')
+        if kf:
+            from compmech.conecyl import modelDB as _mdb
+            mods = [_mdb.db[model]['non-linear']]
+            if model.startswith('iso_') and _mdb.db.get(model[4:], {}).get('non-linear') is not None:
+                mods.append(_mdb.db[model[4:]]['non-linear'])
+            counter = {'n': 0, 'fired': 0}
+            patched = []
+
+            class _KernelFault(Exception):
+                pass
+            exc_cls = type('_KernelFault' + kf['kind'], (_KernelFault, {'MemoryError': MemoryError, 'RuntimeError': RuntimeError,
+                                                                         'ValueError': ValueError}[kf['kind']]), {})
+
+            def wrap(real):
+                def w(*a, **kw):
+                    counter['n'] += 1
+                    if counter['n'] == kf['call'] and not counter['fired'] and \
+                            (not kf['only_threads_gt1'] or kw.get('num_cores', 1) > 1):
+                        counter['fired'] = 1
+                        raise exc_cls('injected failure of %s' % kf['target'])
+                    return real(*a, **kw)
+                return w
+            for mo in mods:
+                if mo is not None and hasattr(mo, kf['target']):
+                    real = getattr(mo, kf['target'])
+                    patched.append((mo, real))
+                    setattr(mo, kf['target'], wrap(real))
+            other = np.ascontiguousarray(0.7 * c + 0.05 * scen['state']['amp'] * d)
+            cc.ni_num_cores = max(scen['threads'])
+            got_f = None
+            try:
+                try:
+                    if kf['op'] == 'kT':
+                        got_f = ('kT', cc.calc_kT(other, inc=scen['inc'], silent=True).toarray())
+                    else:
+                        got_f = ('fint', np.array(cc.calc_fint(other, inc=scen['inc'], silent=True), dtype=float))
+                except _KernelFault:
+                    bump(res['faults'], 'kernel_failure_propagated_' + kf['target'])
+                except Exception as e:
+                    bump(res['exceptions'], 'after_kernel_failure_' + type(e).__name__)
+            finally:
+                for mo, real in patched:
+                    setattr(mo, kf['target'], real)
+            if counter['fired']:
+                bump(res['faults'], 'kernel_failure_injected_' + kf['kind'])
+                if got_f is not None:
+                    bump(res['faults'], 'evaluation_recovered_and_returned')
+                    clean = kT_of(other) if got_f[0] == 'kT' else fint_of(other)
+                    scf = np.abs(clean).max()
+                    if not (np.abs(got_f[1] - clean).max() <= 1e-10 * scf):
+                        raise Violation('JF-after-failure', dict(ctx, fault=kf, quantity=got_f[0], maxdiff=float(np.abs(got_f[1] - clean).max()),
+                                                                 scale=float(scf), why='an evaluation that met a kernel failure returned a result '
+                                                                 'that differs from the fault-free result of the same state'))
+                cc.ni_num_cores = scen['threads'][0]
+                for nm, now, was in (('kT', kT_of(c), kT), ('fint', fint_of(c), fint_c)):
+                    scn = np.abs(was).max()
+                    if not (np.abs(now - was).max() <= 1e-10 * scn):
+                        raise Violation('JF-after-failure', dict(ctx, fault=kf, quantity=nm, maxdiff=float(np.abs(now - was).max()), scale=float(scn),
+                                                                 why='after an evaluation was interrupted by a kernel failure, the same object '
+                                                                     'returns a different %s for a state evaluated before' % nm))
+                bump(res['probes'], 'JF_checked')
+            else:
+                bump(res['probes'], 'kernel_fault_not_reached')
+            cc.ni_num_cores = scen['threads'][0]
+            res['steps'] += 4
         # ---- J7: re-definition between evaluations at the same state: the long-lived object must agree with a
         #      freshly built shell of the new definition (no stale cached matrices)
         rd = scen.get('redefine')
